@@ -106,7 +106,7 @@ pub fn run_reads(doc: &[u8], shared: &Rc<Vec<u8>>, st: &Stream, kind: ReaderKind
                 monitor.push(("position-decreased".into(), format!("step {}: {} -> {}", i, last_pos, pos)));
             }
             last_pos = pos;
-            let limit = if st.kind == SourceKind::Slice { eff_len as u64 } else { log.borrow().handed };
+            let limit = if matches!(st.kind, SourceKind::Slice | SourceKind::Str) { eff_len as u64 } else { log.borrow().handed };
             if pos > limit {
                 monitor.push(("position-beyond-input".into(), format!("step {}: position {} > {} bytes handed out", i, pos, limit)));
             }
